@@ -209,6 +209,10 @@ func (c *fileConn) QueryContext(ctx context.Context, query string, args []driver
 }
 
 func (stmt *fileStmt) query(values []string) (driver.Rows, error) {
+	if n := numInput(stmt.q); len(values) < n {
+		return nil, fmt.Errorf("query needs %d arguments, got %d", n, len(values))
+	}
+
 	q := queryparser.ReplacePlaceholders(stmt.q, values)
 
 	qq := convert.ToQuery(q)
@@ -435,6 +439,10 @@ func (stmt *grpcStmt) Query(args []driver.Value) (driver.Rows, error) {
 }
 
 func (stmt *grpcStmt) query(values []string) (driver.Rows, error) {
+	if n := numInput(stmt.q); len(values) < n {
+		return nil, fmt.Errorf("query needs %d arguments, got %d", n, len(values))
+	}
+
 	q := queryparser.ReplacePlaceholders(stmt.q, values)
 
 	result, err := stmt.c.client.Query(context.Background(), &updogv1.QueryRequest{
